@@ -2,7 +2,7 @@ CONSTANTS
   Limit = 2
   NFrames = 2
   Lens = {0, 1, 2, 3}
-  Types = {0, 1, 2, 4, 5, 7}
+  Types = {0, 1, 4, 7}
   EarlyCheck = FALSE
 INIT Init
 NEXT Next
